@@ -6,6 +6,7 @@ package ref
 
 import (
 	"fmt"
+	"math"
 	"math/big"
 	"sort"
 	"strings"
@@ -631,10 +632,19 @@ func (c *vctx) builtinScalarOK(name string, v *Value) bool {
 		}
 		return n.Cmp(int32Min) >= 0 && n.Cmp(int32Max) <= 0
 	case "Float":
+		if v.Kind != "Int" && v.Kind != "Float" {
+			return false
+		}
+		// "a value not representable by finite IEEE 754 must raise a request error" (spec 3.5.2)
+		if f, ok := new(big.Float).SetString(v.Raw); !ok {
+			return false
+		} else if x, _ := f.Float64(); math.IsInf(x, 0) {
+			return false
+		}
 		if v.Kind == "Int" {
 			return c.bigOK(v.Raw)
 		}
-		return v.Kind == "Float"
+		return true
 	case "String":
 		return v.Kind == "String" || v.Kind == "Block"
 	case "Boolean":
